@@ -242,3 +242,69 @@ func rootedCalls(p *pkgInfo, fnName string, root string) []string {
 	sort.Strings(out)
 	return out
 }
+
+// registries renders cmd/jl's formatRegistry and typeRegistry (name -> Format / dynamic type).
+func registries(p *pkgInfo) (formats []string, typesOut []string) {
+	consts := map[string]string{}
+	for _, f := range p.files {
+		for _, d := range f.Decls {
+			gd, ok := d.(*ast.GenDecl)
+			if !ok {
+				continue
+			}
+			for _, sp := range gd.Specs {
+				vs, ok := sp.(*ast.ValueSpec)
+				if !ok {
+					continue
+				}
+				for i, n := range vs.Names {
+					if gd.Tok == token.CONST && i < len(vs.Values) {
+						if bl, ok := vs.Values[i].(*ast.BasicLit); ok && bl.Kind == token.STRING {
+							consts[n.Name] = strings.Trim(bl.Value, "\"")
+						}
+					}
+					if gd.Tok == token.VAR && i < len(vs.Values) && (n.Name == "formatRegistry" || n.Name == "typeRegistry") {
+						cl, ok := vs.Values[i].(*ast.CompositeLit)
+						if !ok {
+							continue
+						}
+						for _, el := range cl.Elts {
+							kv, ok := el.(*ast.KeyValueExpr)
+							if !ok {
+								continue
+							}
+							key := ""
+							switch k := kv.Key.(type) {
+							case *ast.BasicLit:
+								key = strings.Trim(k.Value, "\"")
+							case *ast.Ident:
+								key = consts[k.Name]
+							}
+							if n.Name == "formatRegistry" {
+								val := p.text(kv.Value)
+								formats = append(formats, fmt.Sprintf("  (%s, .%s)", lbytes(key), lowerFirst(strings.TrimPrefix(val, "jsonline."))))
+							} else {
+								ty := ".other"
+								if tv, ok := p.info.Types[kv.Value]; ok && tv.Type != nil {
+									ty = tyOf(tv.Type)
+								}
+								typesOut = append(typesOut, fmt.Sprintf("  (%s, %s)", lbytes(key), ty))
+							}
+						}
+					}
+				}
+			}
+		}
+	}
+	return
+}
+
+func lowerFirst(s string) string {
+	if s == "" {
+		return s
+	}
+	if s == "DateTime" {
+		return "datetime"
+	}
+	return strings.ToLower(s[:1]) + s[1:]
+}
